@@ -449,11 +449,12 @@ theorem regularMissing_line (c sp : Rat) (hsp : 0 < sp) (es : List Int) (emin : 
     ring
   unfold regularMissing
   simp only [hmult, beq_iff_eq, hne, ↓reduceIte, Bool.and_true]
-  have hall : (es.map (fun (e : Int) => (((e - emin : Int)) : Rat))).all
-      (fun m => isClose m (roundHalfEven m : Rat) tolSpacing) = true := by
+  have hall : (es.map (fun (e : Int) => (((e - emin : Int)) : Rat))).all nearWhole = true := by
     rw [List.all_eq_true]; intro m hm
     obtain ⟨e, _, rfl⟩ := List.mem_map.mp hm
-    rw [round_intCast]; exact isClose_self _
+    unfold nearWhole
+    rw [round_intCast, sub_self]
+    simp [rabs, tolSpacing]
   rw [hall]
   simp only [↓reduceIte, rabs_of_pos hsp, List.map_map]
   congr 2
@@ -1913,11 +1914,30 @@ the plane only -/
 structure Pert (n base : V3) (sp : Rat) (P : Int → V3) : Prop where
   near : ∀ e, ∃ ξ : V3, P e = add (linePos n base sp e) ξ ∧ dot ξ ξ ≤ (sp / 1000) * (sp / 1000)
 
+/-- recorded positions at decimal-string precision: within `sp/100000` of the ideal position -/
+structure PertF (n base : V3) (sp : Rat) (P : Int → V3) : Prop where
+  near : ∀ e, ∃ ξ : V3, P e = add (linePos n base sp e) ξ ∧ dot ξ ξ ≤ (sp / 100000) * (sp / 100000)
+
+theorem PertF.toPert {n base : V3} {sp : Rat} {P : Int → V3} (hsp : 0 < sp) (h : PertF n base sp P) : Pert n base sp P := by
+  refine ⟨fun e => ?_⟩
+  obtain ⟨ξ, h1, h2⟩ := h.near e
+  refine ⟨ξ, h1, le_trans h2 ?_⟩
+  nlinarith [mul_pos hsp hsp]
+
 theorem dot_add_right (a b c : V3) : dot a (add b c) = dot a b + dot a c := by
   cases a; cases b; cases c; simp only [dot, add]; ring
 
 theorem pert_dist {n base : V3} {sp : Rat} {P : Int → V3} (hsp : 0 < sp) (hn : dot n n = 1) (hP : Pert n base sp P) (e : Int) :
     ∃ η : Rat, dot n (P e) = dot n base + (e : Rat) * sp + η ∧ -(sp / 1000) ≤ η ∧ η ≤ sp / 1000 := by
+  obtain ⟨ξ, hξ, hb⟩ := hP.near e
+  refine ⟨dot n ξ, ?_, ?_⟩
+  · rw [hξ, dot_add_right, dot_linePos _ _ _ _ hn]
+  · have h1 := dot_sq_le n ξ
+    rw [hn, one_mul] at h1
+    exact abs_le_of_sq_le (by positivity) (le_trans h1 hb)
+
+theorem pertF_dist {n base : V3} {sp : Rat} {P : Int → V3} (hsp : 0 < sp) (hn : dot n n = 1) (hP : PertF n base sp P) (e : Int) :
+    ∃ η : Rat, dot n (P e) = dot n base + (e : Rat) * sp + η ∧ -(sp / 100000) ≤ η ∧ η ≤ sp / 100000 := by
   obtain ⟨ξ, hξ, hb⟩ := hP.near e
   refine ⟨dot n ξ, ?_, ?_⟩
   · rw [hξ, dot_add_right, dot_linePos _ _ _ _ hn]
@@ -1960,45 +1980,47 @@ theorem rabs_intCast_nonneg (k : Int) (hk : 0 ≤ k) : rabs (k : Rat) = k := by
   rw [if_neg this]
 
 /-- one multiple: the distance of plane `e` from the first plane, divided by the (rounded) spacing, rounds to
-`e − emin` and passes the regularity test -/
-theorem multiple_pert {n base : V3} {sp : Rat} {P : Int → V3} (hsp : 0 < sp) (hn : dot n n = 1) (hP : Pert n base sp P)
-    (sp' : Rat) (h1 : sp * (999 / 1000) ≤ sp') (h2 : sp' ≤ sp * (1001 / 1000)) (emin e : Int) (hk0 : emin ≤ e)
-    (hk1 : e - emin ≤ 100) :
+`e − emin` and passes the regularity test (within 1 % of a spacing of the whole multiple) -/
+theorem multiple_pert {n base : V3} {sp : Rat} {P : Int → V3} (hsp : 0 < sp) (hn : dot n n = 1) (hP : PertF n base sp P)
+    (sp' : Rat) (h1 : sp * (99999 / 100000) ≤ sp') (h2 : sp' ≤ sp * (100001 / 100000)) (emin e : Int) (hk0 : emin ≤ e)
+    (hk1 : e - emin ≤ 500) :
     roundHalfEven ((dot n (P e) - dot n (P emin)) / sp') = e - emin ∧
-    isClose ((dot n (P e) - dot n (P emin)) / sp') ((e - emin : Int) : Rat) tolSpacing = true := by
+    nearWhole ((dot n (P e) - dot n (P emin)) / sp') = true := by
   have hsp' : 0 < sp' := by nlinarith
   by_cases hz : e = emin
   · subst hz
-    simp only [sub_self, zero_div, Int.cast_zero]
-    refine ⟨?_, ?_⟩
-    · have := round_intCast 0; simpa using this
-    · exact isClose_self 0
+    simp only [sub_self, zero_div]
+    have hr : roundHalfEven (0 : Rat) = 0 := by have := round_intCast 0; simpa using this
+    refine ⟨hr, ?_⟩
+    unfold nearWhole
+    rw [hr]
+    simp [rabs, tolSpacing]
   · have hk : 1 ≤ e - emin := by omega
-    obtain ⟨η, hd, hη1, hη2⟩ := pert_dist hsp hn hP e
-    obtain ⟨η0, hd0, hη01, hη02⟩ := pert_dist hsp hn hP emin
+    obtain ⟨η, hd, hη1, hη2⟩ := pertF_dist hsp hn hP e
+    obtain ⟨η0, hd0, hη01, hη02⟩ := pertF_dist hsp hn hP emin
     set k : Int := e - emin with hkdef
     set x : Rat := (dot n (P e) - dot n (P emin)) / sp' with hx
     have hkq : (k : Rat) = (e : Rat) - emin := by rw [hkdef]; push_cast; ring
     have hk1q : (1 : Rat) ≤ k := by exact_mod_cast hk
-    have hk100 : (k : Rat) ≤ 100 := by exact_mod_cast hk1
+    have hk100 : (k : Rat) ≤ 500 := by exact_mod_cast hk1
     have key : (x - k) * sp' = (k : Rat) * (sp - sp') + (η - η0) := by
       rw [hx, hd, hd0, hkq]
       field_simp
       ring
-    -- |x − k| ≤ (k + 2)/999
-    have hub : x - k ≤ ((k : Rat) + 2) / 999 := by
-      have : (x - k) * sp' ≤ (((k : Rat) + 2) / 999) * sp' := by
+    -- |x − k| ≤ (k + 2)/99999
+    have hub : x - k ≤ ((k : Rat) + 2) / 99999 := by
+      have : (x - k) * sp' ≤ (((k : Rat) + 2) / 99999) * sp' := by
         rw [key]; nlinarith
       exact le_of_mul_le_mul_right this hsp'
-    have hlb : -(((k : Rat) + 2) / 999) ≤ x - k := by
-      have : (-(((k : Rat) + 2) / 999)) * sp' ≤ (x - k) * sp' := by
+    have hlb : -(((k : Rat) + 2) / 99999) ≤ x - k := by
+      have : (-(((k : Rat) + 2) / 99999)) * sp' ≤ (x - k) * sp' := by
         rw [key]; nlinarith
       exact le_of_mul_le_mul_right this hsp'
-    refine ⟨?_, ?_⟩
-    · apply round_near <;> linarith
-    · unfold isClose tolSpacing
-      rw [rabs_intCast_nonneg k (by omega), decide_eq_true_eq, rabs_le_iff]
-      constructor <;> linarith
+    have hr : roundHalfEven x = k := by apply round_near <;> linarith
+    refine ⟨hr, ?_⟩
+    unfold nearWhole tolSpacing
+    rw [hr, decide_eq_true_eq, rabs_le_iff]
+    constructor <;> linarith
 
 
 theorem sub_add_linePos (n base : V3) (sp : Rat) (e e' : Int) (ξ ξ' : V3) :
@@ -2061,15 +2083,16 @@ theorem isPerp_pert {n base : V3} {sp : Rat} {P : Int → V3} (hsp : 0 < sp) (hn
   · linarith
 
 
-/-- **Placement is robust against rounding**: recorded positions within `sp/1000` of the ideal positions
-`base + (e·sp)·n`, recorded spacing `sp'` within 0.1 % of `sp`, at most 101 slots: the volume positions are still
+/-- **Placement is robust against rounding**: recorded positions within `sp/100000` of the ideal positions
+`base + (e·sp)·n`, recorded spacing `sp'` within 0.001 % of `sp`, at most 501 slots: the volume positions are still
 `e − min e` (and the spacing returned is the recorded one). -/
 theorem volumePositions_robust (rowCos colCos base : V3) (sp : Rat) (hsp : 0 < sp)
-    (hn : dot (normal rowCos colCos) (normal rowCos colCos) = 1) (P : Int → V3) (hP : Pert (normal rowCos colCos) base sp P)
-    (sp' : Rat) (h1 : sp * (999 / 1000) ≤ sp') (h2 : sp' ≤ sp * (1001 / 1000))
-    (es : List Int) (hes : es ≠ []) (hspan : ∀ e ∈ es, ∀ e' ∈ es, e' - e ≤ 100) :
+    (hn : dot (normal rowCos colCos) (normal rowCos colCos) = 1) (P : Int → V3) (hPF : PertF (normal rowCos colCos) base sp P)
+    (sp' : Rat) (h1 : sp * (99999 / 100000) ≤ sp') (h2 : sp' ≤ sp * (100001 / 100000))
+    (es : List Int) (hes : es ≠ []) (hspan : ∀ e ∈ es, ∀ e' ∈ es, e' - e ≤ 500) :
     ∃ emin ∈ es, (∀ e ∈ es, emin ≤ e) ∧
       volumePositions (es.map P) rowCos colCos (some sp') true = .ok (some (sp', es.map (fun e => e - emin))) := by
+  have hP := hPF.toPert hsp
   set n := normal rowCos colCos with hnd
   have hsp' : 0 < sp' := by nlinarith
   have hmono := pert_mono hsp hn hP
@@ -2130,17 +2153,16 @@ theorem volumePositions_robust (rowCos colCos base : V3) (sp : Rat) (hsp : 0 < s
       simp only [hne0, Bool.false_eq_true, if_false, Bool.and_true]
       have hmult : ∀ e ∈ e0 :: e1 :: t,
           roundHalfEven ((dot n (P e) - dot n (P emin)) / sp') = e - emin ∧
-          isClose ((dot n (P e) - dot n (P emin)) / sp') ((e - emin : Int) : Rat) tolSpacing = true := by
+          nearWhole ((dot n (P e) - dot n (P emin)) / sp') = true := by
         intro e he
-        exact multiple_pert hsp hn hP sp' h1 h2 emin e (hbound e he).1 (hspan emin hemin e he)
+        exact multiple_pert hsp hn hPF sp' h1 h2 emin e (hbound e he).1 (hspan emin hemin e he)
       have hall2 : ((((e0 :: e1 :: t).map P).map (dot n)).map (fun d => (d - dot n (P emin)) / sp')).all
-          (fun m => isClose m (roundHalfEven m : Rat) tolSpacing) = true := by
+          nearWhole = true := by
         rw [List.all_eq_true]
         intro m hm
         simp only [List.map_map, List.mem_map, Function.comp] at hm
         obtain ⟨e, he, rfl⟩ := hm
-        obtain ⟨hr, hc⟩ := hmult e he
-        rw [hr]; exact hc
+        exact (hmult e he).2
       rw [hall2]
       simp only [if_true, rabs_of_pos hsp']
       congr 3
